@@ -288,7 +288,7 @@ def layouts(toks, gapset, rnd=None, sample=None):
 
 def check_c07(out, tier):
     rnd = random.Random(common.seed() + 7)
-    for cfg in (["MC_C07_quick.cfg"] if tier == "quick" else ["MC_C07_thorough.cfg", "MC_C07_thorough2.cfg"]):
+    for cfg in (["MC_C07_quick.cfg"] if tier == "quick" else ["MC_C07_thorough.cfg", "MC_C07_thorough2.cfg", "MC_C07_thorough3.cfg"]):
         r = tlc.check_model("MC_TtlReader", cfg, timeout=3000, xss="16m")
         out.add_l1(cfg, r)
         for inv in r["violated"]:
